@@ -91,3 +91,9 @@ def cipher_facts(run):
     run.hook('pgpy.constants.SymmetricKeyAlgorithm', 'block_size', block_size)
     run.hook('pgpy.constants.SymmetricKeyAlgorithm', 'is_supported', const(VBool(True)))
     run.hook('pgpy.constants.SymmetricKeyAlgorithm', 'is_insecure', lambda ex, st, o, a: [(st, VBool(o.conc() == 1))])
+
+
+def b2i2(seq):
+    """big-endian value of a sequence of at most two octets (what int.from_bytes gives for m[:2])"""
+    n = z3.Length(seq)
+    return z3.If(n >= 2, seq[0] * 256 + seq[1], z3.If(n == 1, seq[0], 0))
